@@ -819,7 +819,13 @@ func checkBusyWait(c *Check, p *Program, a *routerAnchors, after ssa.Instruction
 		case *ssa.ChangeType:
 			return nonneg(x.X, depth+1)
 		case *ssa.Call:
-			return funcIs(calleeObj(x), "math/rand", "", "Float64")
+			// non-negative by contract: Float64 in [0,1), Intn/Int31n/Int63n in [0,n), Int/Int31/Int63 >= 0
+			for _, n := range []string{"Float64", "Float32", "Intn", "Int31n", "Int63n", "Int", "Int31", "Int63"} {
+				if funcIs(calleeObj(x), "math/rand", "", n) {
+					return true
+				}
+			}
+			return false
 		case *ssa.UnOp:
 			if isLoadOf(x, waitF) {
 				sawWait = true
